@@ -11,6 +11,7 @@ Definition transact_comb (c : cfg) : list event * result :=
     let '(ev, r) := run_steps 0 (steps c) in
     match r with
     | RNil => (EBegin :: ev ++ [ECommit], if commit_ok c then RNil else RCommitErr)
+    | RTxDone => (EBegin :: ev, RTxDone)
     | _ => (EBegin :: ev ++ [ERollback], r)
     end.
 
@@ -87,3 +88,23 @@ Proof. split; reflexivity. Qed.
 Example ex_panic_first : transact {| begin_ok := true; commit_ok := true; rollback_ok := true; steps := [SPanic 3; SOk] |}
   = ([EBegin; EExec 0; ERollback], RPanicErr 3).
 Proof. reflexivity. Qed.
+
+(* a last step that finishes the transaction itself and returns nil: nothing is committed and the caller is told *)
+Example ex_step_ends_tx : transact {| begin_ok := true; commit_ok := true; rollback_ok := true; steps := [SOk; SDoneRb] |}
+  = ([EBegin; EExec 0; EExec 1; ERollback], RTxDone).
+Proof. reflexivity. Qed.
+
+Lemma finished_tx_is_reported_lem c : begin_ok c = true -> (exists i, first_bad 0 (steps c) = Some (i, SDoneRb)) ->
+  snd (transact c) = RTxDone /\ count is_commit (fst (transact c)) = 0.
+Proof.
+  intros Hb [i Hf]. split.
+  - rewrite result_spec_lem. unfold expected_result. destruct (steps c) eqn:E; [cbn in Hf; discriminate|].
+    rewrite Hb. cbn [negb]. rewrite Hf. reflexivity.
+  - assert (Hs : steps c <> []) by (destruct (steps c); [cbn in Hf; discriminate|discriminate]).
+    pose proof (commit_iff_all_ok c Hs Hb) as [H1 _].
+    destruct (Nat.eq_dec (count is_commit (fst (transact c))) 1) as [E1|N1].
+    + specialize (H1 E1). pose proof (run_steps_spec (steps c) 0) as R. destruct (run_steps 0 (steps c)) as [ev r].
+      destruct R as (_ & _ & _ & R). rewrite Hf in R. destruct R as (_ & _ & _ & _ & Ha). congruence.
+    + pose proof (transact_finished_once c Hs Hb) as F. pose proof (model_holds c) as MH.
+      (* the count is 0 or 1: finished exactly once *) lia.
+Qed.
